@@ -4,7 +4,7 @@ from simkit import design_shrink, history
 from simkit.gen_hier import ScriptGen
 from simkit import corpus, textgen_verilog
 from simkit.oracles.links import check_links
-from simkit.oracles.mirror import check_mirror, check_self_contained
+from simkit.oracles.mirror import check_mirror, check_self_contained, check_wire_endpoints
 from simkit.model import scan
 from simkit.violation import Violation
 from simkit.world import World, kind_of
@@ -87,7 +87,7 @@ class C06(Prop):
                       "order": r.choice(["bottom_up", "top_down", "shuffled", "shuffled"]),
                       "positional_rate": r.choice([0.0, 0.3, 0.6])}
         cfg["render"] = {"ws": r.choice(["plain", "wild"]), "comment_rate": r.choice([0.0, 0.15]),
-                         "wire_kw": r.choice(["wire", "wire", "reg"]), "group_decls": r.random() < 0.3}
+                         "wire_kw": r.choice(["wire", "wire", "reg"]), "group_decls": r.random() < 0.3, "defparam": r.random() < 0.3}
         cfg["prior_rejected"] = r.random() < 0.2   # an earlier, refused read in the same process
         return cfg
 
@@ -136,6 +136,7 @@ class C06(Prop):
         check_links(objs, disc, w.name_of, P="C06.wellformed")
         check_mirror(objs, disc, w.name_of, P="C06.wellformed")
         check_self_contained(n, objs, disc, w.name_of, "C06.wellformed")
+        check_wire_endpoints(n, disc, w.name_of, P="C06.wellformed")
         if World.process_state_fingerprint() != pre:
             raise Violation("C06.process_state", disc, "parse changed process-wide settings")
         if not self.design:
